@@ -56,6 +56,7 @@ from cryptoparser.common.field import (
     FieldsSemicolonSeparated,
     MimeTypeRegistry,
     NameValueVariantBase,
+    get_attribute_default,
 )
 from cryptoparser.common.parse import ParsableBase, ParserCRLF, ParserText, ComposerText
 from cryptoparser.common.utils import get_leaf_classes
@@ -1392,12 +1393,12 @@ class HttpHeaderFieldValueSetCookieParams(FieldsSemicolonSeparated):
     secure = attr.ib(
         converter=HttpHeaderFieldValueSetCookieParamSecure.convert,
         validator=attr.validators.instance_of(HttpHeaderFieldValueSetCookieParamSecure),
-        default=HttpHeaderFieldValueSetCookieParamSecure(False)
+        default=attr.Factory(lambda: HttpHeaderFieldValueSetCookieParamSecure(False))
     )
     http_only = attr.ib(
         converter=HttpHeaderFieldValueSetCookieParamHttpOnly.convert,
         validator=attr.validators.instance_of(HttpHeaderFieldValueSetCookieParamHttpOnly),
-        default=HttpHeaderFieldValueSetCookieParamHttpOnly(False)
+        default=attr.Factory(lambda: HttpHeaderFieldValueSetCookieParamHttpOnly(False))
     )
     same_site = attr.ib(
         converter=attr.converters.optional(HttpHeaderFieldValueSetCookieParamSameSite.convert),
@@ -1433,12 +1434,12 @@ class HttpHeaderFieldValueSetCookie(FieldValueBase):  # pylint: disable=too-many
     secure = attr.ib(
         converter=attr.converters.optional(HttpHeaderFieldValueSetCookieParamSecure.convert),
         validator=attr.validators.optional(attr.validators.instance_of(HttpHeaderFieldValueSetCookieParamSecure)),
-        default=HttpHeaderFieldValueSetCookieParamSecure(False)
+        default=attr.Factory(lambda: HttpHeaderFieldValueSetCookieParamSecure(False))
     )
     http_only = attr.ib(
         converter=attr.converters.optional(HttpHeaderFieldValueSetCookieParamHttpOnly.convert),
         validator=attr.validators.optional(attr.validators.instance_of(HttpHeaderFieldValueSetCookieParamHttpOnly)),
-        default=HttpHeaderFieldValueSetCookieParamHttpOnly(False)
+        default=attr.Factory(lambda: HttpHeaderFieldValueSetCookieParamHttpOnly(False))
     )
     same_site = attr.ib(
         converter=attr.converters.optional(HttpHeaderFieldValueSetCookieParamSameSite.convert),
@@ -1481,7 +1482,7 @@ class HttpHeaderFieldValueSetCookie(FieldValueBase):  # pylint: disable=too-many
         params = {}
         for name, attribute in attr.fields_dict(type(self)).items():
             value = getattr(self, name)
-            if value != attribute.default and attribute.name not in ['name', 'value', ]:
+            if value != get_attribute_default(attribute) and attribute.name not in ['name', 'value', ]:
                 params[name] = getattr(self, name)
 
         if params:
